@@ -112,6 +112,9 @@ impl Vocab {
             0 => w.to_uppercase(),
             1 => { let mut c = w.chars(); match c.next() { Some(f) => f.to_uppercase().collect::<String>() + c.as_str(), None => String::new() } }
             2 => decompose(w),
+            // capitals AND decomposed accents in one word (case mapping and composition interact)
+            5 => decompose(&w.to_uppercase()),
+            6 => { let mut c = w.chars(); match c.next() { Some(f) => decompose(&(f.to_uppercase().collect::<String>() + c.as_str())), None => String::new() } }
             // a combining mark after the last letter (decomposed accent the language may not compose): stripped from the word
             4 => format!("{}{}", w, r.pick(&['\u{301}', '\u{300}', '\u{308}', '\u{327}'])),
             // non-alphanumeric edge characters that are not separators: they stay in the split word and are stripped
@@ -160,6 +163,24 @@ pub fn decompose_char(c: char) -> Option<(char, char)> {
         let e = crate::canon_table::CANON_PAIRS[i];
         Some((char::from_u32(e.1)?, char::from_u32(e.2)?))
     })
+}
+
+/// canonical composition of a (base, mark) pair, from the same reference table
+pub fn compose_pair(b: char, m: char) -> Option<char> {
+    crate::canon_table::CANON_PAIRS.iter().find(|e| e.1 == b as u32 && e.2 == m as u32).and_then(|e| char::from_u32(e.0))
+}
+
+/// what "accent sequences the language knows how to compose appear composed" means, without consulting the code
+/// under test: one left-to-right pass; a (base, mark) pair whose canonical composition is a letter of the language's
+/// inventory (the letters its tables mention) is replaced by that letter
+pub fn ref_compose(inventory: &[char], s: &[char]) -> Vec<char> {
+    let mut out = vec![];
+    let mut i = 0;
+    while i < s.len() {
+        if i + 1 < s.len() { if let Some(c) = compose_pair(s[i], s[i + 1]) { if inventory.contains(&c) { out.push(c); i += 2; continue; } } }
+        out.push(s[i]); i += 1;
+    }
+    out
 }
 
 pub fn decompose(w: &str) -> String {
@@ -221,6 +242,15 @@ pub fn tok_random(code: &str, r: &mut Rng, n: usize, per_case: usize) -> Vec<Cas
     let v = vocab(code);
     let mut cases = vec![];
     let mut ops = vec![];
+    // every inventory letter written decomposed as the only combining mark of the text (one per text), and every
+    // combining mark the reference table knows after a plain letter
+    for &c in &v.accents {
+        if let Some((b, m)) = decompose_char(c) {
+            let w = v.word(r);
+            for s in [format!("{}{}{}", b, m, w), format!("{} {}{}", w, b, m)] { ops.push(Op::TokQ(s.clone())); ops.push(Op::TokR(s)); }
+        }
+    }
+    if !ops.is_empty() { cases.push(Case { name: format!("tok-lone-mark-{}", code), lang: code.to_string(), stream: "AC-tok-lone-mark", ops: std::mem::take(&mut ops) }); }
     for i in 0..n {
         let s = match r.below(4) { 0 => { let k = r.range(0, 12); random_unicode(r, k) } _ => v.title(r) };
         ops.push(Op::TokQ(s.clone()));
